@@ -91,6 +91,27 @@ def cq(v):
     return "SAsync %d %s" % (v[1], glist([cq(c) for c in v[2]]))
 
 
+def cqx(v):
+    """the view as a term of Async/StreamX.v (the translation into Stream.v's views happens inside the model)"""
+    L = lambda cs: glist([cqx(c) for c in cs])
+    k = v[0]
+    if k == "text":
+        return "XText %s" % gstr(v[1])
+    if k == "live":
+        return "XLive"
+    if k == "el":
+        return "XEl %s %s" % (gstr(v[1]), L(v[2]))
+    if k in ("sus", "trans"):
+        return "%s %d %s %s" % ("XSus" if k == "sus" else "XTrans", v[1], gstr("F%d" % v[1]), L(v[2]))
+    if k == "dyn":
+        return "XDyn %s" % L(v[1])
+    if k == "cresv":
+        return "XCres %s" % L(v[1])
+    if k == "flip":
+        return "XFlip %d" % v[1]
+    return "%s %d %s" % ({"async": "XAsync", "resv": "XResv", "resu": "XResu", "when": "XWhen", "unless": "XUnless"}[k], v[1], L(v[2]))
+
+
 def gates(v):
     if v[0] in ("text", "live", "cresv"):
         return []
@@ -303,9 +324,9 @@ def model_view(vs, sync=False):
 
 
 def run_model(pid, cs, chunk=30):
-    exprs = ["run_render_all %s" % glist(["(%s, %s)" % (glist([cq(v) for v in model_view(vs)]), glist([str(g) for g in s])) for vs, s in cs[i:i + chunk]])
+    exprs = ["run_render_x_all %s" % glist(["(%s, %s)" % (glist([cqx(v) for v in vs]), glist([str(g) for g in s])) for vs, s in cs[i:i + chunk]])
              for i in range(0, len(cs), chunk)]
-    outs = vlib.coq_eval(pid, PRE, exprs, per_file=max(1, (len(exprs) + 15) // 16))
+    outs = vlib.coq_eval(pid, PRE + "From Syc Require Import Async.StreamX.\n", exprs, per_file=max(1, (len(exprs) + 15) // 16))
     res = []
     for o in outs:
         res.extend(b.split("\n") for b in o.split("\n==\n"))
